@@ -97,13 +97,8 @@ def case(draw, unit_variation=False):
     # a time step that keeps Euler / tau-leap tame: at most ~2 % relative change per step
     m_ = Model(spec)
     x_ = m_.state()
-    dx_, sc_ = m_.derivative(x_)
-    best = None
-    for xv, s_ in zip(x_, sc_):
-        if s_ > 0:
-            r_ = max(abs(xv), 1.0) / s_
-            best = r_ if best is None else min(best, r_)
-    base = 10.0 ** math.floor(math.log10((best if best else 1.0) * 0.02))
+    from vlib.ratelaw import tame_dt
+    base = tame_dt(m_)
     units = draw(gen.us_mild)
     tscale = float(si.TIME[units["time"]])
     # all time quantities of the script are bare numbers in the script's time unit: 'dt' below is that number,
